@@ -17,7 +17,7 @@ from checks import c01
 
 PROP = 'C06'
 LEVEL = 'exploration'
-RULE = ('random universes (multi-namespace, inheritance, attributes/XmlData, choice groups, restrictions on every primitive) x {XmlDocument, Soap11, '
+RULE = ('random universes (multi-namespace, inheritance, attributes/XmlData, choice groups, declared defaults, restrictions on every primitive) x {XmlDocument, Soap11, '
         'Soap12}: schema compilation; libxml2 validation of every document spyne emitted (server responses, loopback-client requests); '
         'lxml-vs-soft verdict pairs over boundary values at every leaf slot of dense requests, and over EVERY slot and boundary value of a fixed three-level class tree (inherited mandatory, bounded-repeat, array and faceted members); non-trivial = an emitted document that was '
         'validated, or a boundary document that reached both validators; distinct by (protocol, emitter/slot position, facet, value label).')
@@ -41,7 +41,7 @@ def shards(tier, seed):
 
 def universe(seed, uid):
     rng = core.rng_for(seed, PROP, 'uni%d' % uid)
-    o = gen.Opts(max_types=4, namespaces=3, choice_groups=True)
+    o = gen.Opts(max_types=4, namespaces=3, choice_groups=True, defaults=True)
     return gen.rand_universe(rng, o, uid=uid)
 
 
